@@ -249,6 +249,10 @@ def step (st : St) (line : String) : St × String :=
     (match k.toNat? with
      | some k => reply { st with c := st.c.mul k } "ok"
      | none => bad)
+  | [["imul", k]] =>
+    (match k.toNat? with
+     | some k => reply { st with c := st.c.imul k } "ok"
+     | none => bad)
   | ["inverse" :: pairs] =>
     -- pairs: op=>op list giving the gate-level inverse of every op of the circuit
     (match pairs.mapM (fun s => match s.splitOn "=>" with
